@@ -467,3 +467,77 @@ def quick_sign(node):
             r = ctx.__dict__.get('fn_sign', {}).get(n.val)
         memo[n.id] = r
     return memo[node.id]
+
+
+# ----------------------------------------------------------------------------
+# monotonicity of the square root:  X_b >= X_a >= 0  =>  sqrt(X_b) = sqrt(X_a) + delta, delta >= 0
+# ----------------------------------------------------------------------------
+def _subst_var(p, vid, repl_terms):
+    """substitute variable vid by the polynomial repl (dict) in p"""
+    from math import comb
+    out = {}
+    cache = {0: rf.ONE}
+    for m, c in p.items():
+        e = 0
+        rest = []
+        for v, ee in m:
+            if v == vid:
+                e = ee
+            else:
+                rest.append((v, ee))
+        if e == 0:
+            out[m] = out.get(m, 0) + c
+            continue
+        if e not in cache:
+            cache[e] = rf.ppow(repl_terms, e)
+        term = rf.pmul({tuple(rest): c}, cache[e])
+        for mm, cc in term.items():
+            v2 = out.get(mm, 0) + cc
+            if v2:
+                out[mm] = v2
+            else:
+                out.pop(mm, None)
+    return out
+
+
+def sqrt_monotone_sign(node):
+    """sign certificate for `node` using sqrt(X_b) >= sqrt(X_a) whenever X_b - X_a is certified >= 0"""
+    try:
+        fr = convert(node)
+    except Exception:
+        return None
+    n = reduce_numer(fr.n) if fr.n else fr.n
+    names = core.CTX.__dict__.get('_vname', {})
+    sq = sorted({v for m in n for v, _ in m if names.get(v, '').startswith('v_sqrt@')})
+    if len(sq) < 2 or len(sq) > 6:
+        return None
+    strict, nonneg = _var_kinds()
+    # denominator must be certified positive
+    for p, e in ([(_mono_poly(fr.m), 1)] if fr.m else []) + [(pp, ee) for pp, ee in fr.f.values()]:
+        sd = _poly_sign(reduce_numer(p), strict, nonneg)
+        if sd is None or sd[0] != '+' or not sd[1]:
+            return None
+    rad = {v: core.CTX.atoms[names[v][2:]]['defn'][1] for v in sq}
+    order = []
+    for a in sq:
+        for b in sq:
+            if a != b:
+                s_ = sign_certificate(core.sub(rad[b], rad[a]), factor=False)
+                if s_ in ('>=0', '>0', '==0'):
+                    order.append((a, b))
+    # eliminate greedily: replace b by a + delta for pairs (a, b), largest first
+    cur = n
+    used = set()
+    for a, b in order:
+        if b in used or a in used:
+            continue
+        d = core.CTX.var(f'sqrtgap@{a}_{b}', kind='nonneg')
+        dv = _vid('v_' + d.val)
+        nonneg.add(dv)
+        cur = _subst_var(cur, b, {((a, 1),): 1, ((dv, 1),): 1})
+        cur = reduce_numer(cur)
+        used.add(b)
+        sg = _poly_sign(cur, strict, nonneg)
+        if sg is not None:
+            return {'+': '>=0' if not sg[1] else '>0', '-': '<=0' if not sg[1] else '<0', '0': '==0'}[sg[0]]
+    return None
